@@ -79,7 +79,8 @@ def Arr.stepsUpTo : Arr → Nat → List Nat
   | .pfx h st, H => prefixSteps h st H
   | .prop J a, H =>
     if 1 ≤ H then
-      1 :: ((a.stepsUpTo (H + J)).filter (fun x => decide (x > J + 1))).map (· - J)
+      (if 0 < a.N (1 + J) then [1] else []) ++
+        ((a.stepsUpTo (H + J)).filter (fun x => decide (x > J + 1))).map (· - J)
     else []
   | .agg as, H => dedup (Arr.stepsList as H)
   | .sum a b, H => dedup (merge (a.stepsUpTo H) (b.stepsUpTo H))
